@@ -113,7 +113,8 @@ def run_step(rep, prop, forms=None, harness_timeout=900, skip_groups=()):
                 rep.auto_checks += max(0, h["total"] - named)
         seen = set()
         for g, fc in other:
-            oid = "C15/%s/%s@%s:%d" % (fc["func"].split("::")[-1], fc["desc"], os.path.relpath(fc["file"], "/repo") if fc["file"].startswith("/repo") else fc["file"], fc["line"])
+            import custom_check
+            oid = custom_check.auto_id(g, fc)
             if oid in seen:
                 continue
             seen.add(oid)
